@@ -9,6 +9,7 @@
 
 mod rng;
 mod dns;
+mod sni;
 
 use std::io::{BufRead, Write};
 
@@ -19,6 +20,7 @@ fn gen(stream: &str, seed: u64, n: u64) -> Vec<String> {
             let mut r = rng.fork();
             let body = match stream {
                 "dns" => dns::gen(&mut r, i),
+                "sni" => sni::gen(&mut r, i),
                 _ => panic!("unknown stream {stream}"),
             };
             format!("{stream} {body}")
@@ -37,6 +39,7 @@ fn run_line(line: &str) -> String {
     let toks: Vec<&str> = rest.split_whitespace().collect();
     let obs = match stream {
         "dns" => dns::run(&toks),
+        "sni" => sni::run(&toks),
         _ => "unknown-stream".to_string(),
     };
     format!("{input} | {obs}")
